@@ -46,9 +46,9 @@ func (prop) Rule() string {
 var alphabet = []byte{'a', 'b', '/', 0x00, 0xff}
 
 func (prop) Gen(r *core.Rand, tier string) []core.Case {
-	n := 300
+	n := 200
 	if tier == "thorough" {
-		n = 6000
+		n = 1500
 	}
 	h := func(s string) string { return core.Hex([]byte(s)) }
 	cs := []core.Case{
@@ -224,7 +224,7 @@ type runner struct {
 
 func (prop) New() core.Runner {
 	rn := &runner{ref: map[string][]byte{}}
-	dir, err := os.MkdirTemp("", "vh-c18-")
+	dir, err := os.MkdirTemp(scratchBase(), "vh-c18-")
 	if err != nil {
 		rn.broken = true
 		return rn
@@ -450,4 +450,17 @@ func (rn *runner) Step(ctx *core.Ctx, op []string) string {
 		return "bad-op"
 	}
 	return strings.Join(outs, " | ")
+}
+
+// scratchBase prefers a memory-backed directory: the leveldb driver fsyncs every Put/Delete,
+// which makes an on-disk scratch directory the bottleneck of the run ("" = os.TempDir()).
+func scratchBase() string {
+	if st, err := os.Stat("/dev/shm"); err == nil && st.IsDir() {
+		if f, err := os.CreateTemp("/dev/shm", "vh-probe-"); err == nil {
+			f.Close()
+			os.Remove(f.Name())
+			return "/dev/shm"
+		}
+	}
+	return ""
 }
